@@ -153,6 +153,7 @@
 //!   this feature must be used with care.  The instant type for this crate is
 //!   then re-exported top-level module.
 #![warn(missing_docs)]
+#![allow(unexpected_cfgs)]
 pub mod algorithms;
 pub mod iter;
 #[cfg(feature = "text")]
@@ -165,6 +166,9 @@ mod deadline_support;
 #[cfg(feature = "text")]
 mod text;
 mod types;
+#[cfg(similar_verif)]
+#[doc(hidden)]
+pub mod verif;
 
 pub use self::common::*;
 #[cfg(feature = "text")]
